@@ -91,6 +91,29 @@ pub(crate) mod verif_probe {
                     json!({"result": if r.is_ok() { "ok" } else { "err" }, "config_changed": before != after, "kind": kind})
                 }))
             }
+            "admin_reload" => {
+                // the admin console's RELOAD on an unchanged file and on an invalid one: what is the admin client told?
+                let rt = tokio::runtime::Builder::new_current_thread().enable_all().build().unwrap();
+                Some(rt.block_on(async move {
+                    let good = std::fs::read_to_string(concat!(env!("CARGO_MANIFEST_DIR"), "/pgcat.toml")).unwrap().replace("validate_config = true", "validate_config = false");
+                    let dir = std::env::temp_dir().join(format!("verif_admin_reload_{}", std::time::SystemTime::now().duration_since(std::time::UNIX_EPOCH).unwrap().as_nanos()));
+                    std::fs::create_dir_all(&dir).unwrap();
+                    let path = dir.join("pgcat.toml");
+                    std::fs::write(&path, &good).unwrap();
+                    if parse(path.to_str().unwrap()).await.is_err() { return json!({"error": "baseline config does not parse"}); }
+                    let map: crate::pool::ClientServerMap = Arc::new(parking_lot::Mutex::new(std::collections::HashMap::new()));
+                    let mut out = vec![];
+                    for kind in ["same", "invalid"] {
+                        if kind == "invalid" { std::fs::write(&path, "this is [not toml").unwrap(); }
+                        let mut reply: Vec<u8> = vec![];
+                        let r = crate::admin::handle_admin(&mut reply, crate::messages::simple_query("RELOAD"), map.clone()).await;
+                        let says_reload = reply.windows(7).any(|w| w == b"RELOAD\0");
+                        out.push(json!({"kind": kind, "ok": r.is_ok(), "says_reload": says_reload}));
+                    }
+                    let _ = std::fs::remove_dir_all(&dir);
+                    json!({"runs": out})
+                }))
+            }
             "auth_query_config" => {
                 // a one-pool configuration whose auth_query triple is partly set, every user with a password: validated, then the pass-through is built
                 let mut cfg = Config::default();
